@@ -48,6 +48,9 @@ def cases(tier, seed):
         # depth 6 at 0.2 deg pixels: about twenty image pixels share one cell of the region (coarser than the pixel grid)
         for depth in (([6, 9] if sc == 1.0 else [6, 8, 10]) if tier == "quick" else ([5, 6, 7, 9] if sc == 1.0 else [5, 6, 7, 8, 10, 11])):
             yield "image", dict(shape=sh, proj=pj, crpix=cp, scale=sc, region=rk, depth=depth)
+            if pj == "SIN" and cp == "centre":
+                # the same field described by a header with a NEGATIVE reference longitude (CRVAL1 = -2 = 358 deg)
+                yield "image", dict(shape=sh, proj=pj, crpix=cp, scale=sc, region=rk, depth=depth, ra0=-2.0)
     for m in range(32):
         yield "table", dict(rows=m)
         if m:
@@ -111,7 +114,7 @@ def ev_image(case, ctx):
     rows, cols = shape
     sc = case["scale"]
     crpix = None if case["crpix"] == "centre" else (cols + 30.5, -12.25)
-    hdr = wz.make_header(case["proj"], (150.0 + core.seed_shift(ctx.seed, 10, 30), -35.0), sc, shape, crpix=crpix)
+    hdr = wz.make_header(case["proj"], (case.get("ra0", 150.0) + core.seed_shift(ctx.seed, 10, 30 if "ra0" not in case else 1.0), -35.0), sc, shape, crpix=crpix)
     fhdr = wz.to_fits_header(hdr)
     wcs = WCS(fhdr, naxis=2)
     probe = wz.pix2sky(hdr, np.array([cols * 0.35, cols * 0.8, cols * 0.35 + 1]), np.array([rows * 0.6, rows * 0.2, rows * 0.6]))
@@ -123,6 +126,8 @@ def ev_image(case, ctx):
     inside, amb = oracle_inside(hdr, shape, reg)
     ok = ~amb
     tag = "%dx%d,%s,crpix=%s,scale=%g,%s,depth=%d" % (rows, cols, case["proj"], case["crpix"], sc, case["region"], case["depth"])
+    if "ra0" in case:
+        tag += ",crval1=%g" % case["ra0"]
     ctx.count("ambiguous_pixels_skipped", int(np.sum(amb)))
     if np.any(inside & ok) and np.any(~inside & ok):
         ctx.nontrivial(tag)
